@@ -21,10 +21,15 @@
 //     access through a nil pointer makes the result `none` (a panic);
 //   - statements: if / else, expression-less and tagged switch (no
 //     fallthrough), type switch over a symbolic interface value (see below),
-//     the statement panic(…) (`none`), return (also naked), :=, =, op=, ++, --, var, local const
+//     return (also naked), :=, =, op=, ++, --, var, local const
 //     (folded at its uses), assignments
 //     to fields of the receiver or of local struct values; statements after a
 //     branching statement are duplicated into both branches;
+//   - `for range n { f(…); _ = g(…) }` over an integer n whose body consists
+//     only of calls with discarded results (trace mode): the body's trace
+//     entries are appended `n` times (`List.replicate n.toNat [...]`);
+//   - a `panic(…)` statement (outside loops) makes the result `none`, like
+//     every other run-time panic;
 //   - expressions: literals, constants (folded with go/types, so imported
 //     constants such as dns.MaxMsgSize are resolved from the dependency's
 //     export data), parameters, locals, field selectors, arithmetic,
@@ -79,7 +84,10 @@
 //     field assignment; `&T{…}` of abstract type is non-nil and, in trace mode
 //     with the file-level option "trace_new",
 //     the entry ("new T", ["K=" ++ value, …]) (nested literals flattened to
-//     "K.L=…", values of scalar type rendered, "_" otherwise); an assignment to a
+//     "K.L=…", values of scalar type rendered, "_" otherwise); a
+//     field of abstract type of a translated struct (`mh.next`) is read as such
+//     an opaque value, and so is a type assertion `x.(T)` (the dynamic type is
+//     not modelled); an assignment to a
 //     field of an abstract object (`resp.Compress = true`) is an effect and is
 //     appended to the trace as `("set resp.Compress", ["true"])` (the
 //     value of a call of scalar type is evaluated first, its opaque calls traced); values read
@@ -95,6 +103,8 @@
 //     are, in traced functions, opaque calls like any other (a parameter for
 //     the result and a trace entry with the format string) — the behaviour the
 //     ties of C08 (and others written before the texts became fixed) rely on;
+//     listing fmt.Errorf or slices.Contains under "pure" also makes the call
+//     an (untraced) opaque value instead of the fixed text / the intrinsic;
 //   - a field of abstract type of a translated structure and an element of
 //     an abstract slice are read like values of abstract objects (above);
 //   - the spec file may declare such a type *symbolic* (object form of the
@@ -154,7 +164,9 @@
 //     appearance) and, when "trace" is set, the definition also returns the
 //     list of opaque calls reached, in order, each with the values of its
 //     arguments of scalar type (a slice expression `a[i:j]` is
-//     rendered as "a[" ++ i ++ ":" ++ j ++ "]" with the bounds' values) — so "which external effects happen, in which
+//     rendered as "a[" ++ i ++ ":" ++ j ++ "]" with the bounds' values; with
+//     "trace_qual" the callee is recorded with its last qualifier,
+//     `Ratelimiter.Check` rather than `Check`) — so "which external effects happen, in which
 //     order and with which arguments" is part of the translated meaning; calls
 //     listed under "pure" are opaque values that are not traced; a call to a
 //     translated function that itself has opaque parameters is opaque too;
@@ -216,6 +228,10 @@ type TrFunc struct {
 	// Func: its body is translated as a function of its own parameters, with
 	// the enclosing function's receiver and parameters in scope.
 	Lit int `json:"lit,omitempty"`
+	// TraceQual records a traced call as "x.Method" (the last two components
+	// of the printed callee: field or variable, then method) instead of
+	// "Method", to tell `prof.Ratelimiter.Check` from `mw.limiter.Check`.
+	TraceQual bool `json:"trace_qual,omitempty"`
 	// RecvNonNil models the pointer receiver as the struct itself: callers
 	// are assumed never to pass nil (stated where it is used).
 	RecvNonNil bool `json:"recv_nonnil,omitempty"`
@@ -1037,6 +1053,9 @@ func (c *fctx) expr(e ast.Expr) ex {
 		c.opaqueVals[key] = name
 		return ex{code: name}
 	}
+	if _, ok := e.(*ast.TypeAssertExpr); ok {
+		return c.opaqueValue(e)
+	}
 	fail("expression %s (%T)", c.show(e), e)
 	return ex{}
 }
@@ -1537,7 +1556,7 @@ func (c *fctx) call(x *ast.CallExpr) ex {
 			return "(if " + fmt.Sprintf(test, s[1]) + " then some (" + s[0] + " ++ \": not positive\") else none)"
 		})
 	}
-	if key == "slices.Contains" && len(x.Args) == 2 && c.t.leanType(c.typeOf(x.Args[0])) != "" {
+	if key == "slices.Contains" && len(x.Args) == 2 && c.t.leanType(c.typeOf(x.Args[0])) != "" && !c.matches(c.spec.Pure, x) {
 		xs := []ex{c.expr(x.Args[0]), c.expr(x.Args[1])}
 		return c.bindN(xs, func(s []string) string { return "(" + s[0] + ".contains " + s[1] + ")" })
 	}
@@ -1572,7 +1591,7 @@ func (c *fctx) call(x *ast.CallExpr) ex {
 		return r
 	}
 	// errors made by any other call: opaque non-nil error value labelled by source text
-	if isError(c.typeOf(x)) && !(c.trace && c.t.traceErrors) {
+	if isError(c.typeOf(x)) && !(c.trace && c.t.traceErrors) && !c.matches(c.spec.Pure, x) {
 		if tup, ok := c.typeOf(x).(*types.Tuple); !ok || tup.Len() == 1 {
 			switch c.show(x.Fun) {
 			case "fmt.Errorf", "errors.New", "errors.Error", "newNotPositiveError", "newNegativeError", "newMustBeUniqueError":
@@ -1624,7 +1643,11 @@ func (c *fctx) traceEntry(x *ast.CallExpr) string {
 	for _, a := range x.Args {
 		args = append(args, c.traceArg(a))
 	}
-	return fmt.Sprintf("(%q, [%s])", lastName(c.show(x.Fun)), strings.Join(args, ", "))
+	name := lastName(c.show(x.Fun))
+	if parts := strings.Split(c.show(x.Fun), "."); c.spec.TraceQual && len(parts) >= 2 {
+		name = strings.Join(parts[len(parts)-2:], ".")
+	}
+	return fmt.Sprintf("(%q, [%s])", name, strings.Join(args, ", "))
 }
 
 func (c *fctx) traceArg(a ast.Expr) (code string) {
@@ -1998,6 +2021,39 @@ func (c *fctx) runDefers(i int, final func() string) string {
 	return code
 }
 
+// countedLoop translates `for range n { f(…); _ = g(…) }` over an integer n
+// whose body consists only of opaque calls with discarded results: the body's
+// trace entries are appended n times.
+func (c *fctx) countedLoop(x *ast.RangeStmt, rest []ast.Stmt) string {
+	var entries []string
+	for _, b := range x.Body.List {
+		var call *ast.CallExpr
+		switch bs := b.(type) {
+		case *ast.ExprStmt:
+			call, _ = bs.X.(*ast.CallExpr)
+		case *ast.AssignStmt:
+			blank := len(bs.Rhs) == 1
+			for _, l := range bs.Lhs {
+				if id, ok := l.(*ast.Ident); !ok || id.Name != "_" {
+					blank = false
+				}
+			}
+			if blank {
+				call, _ = bs.Rhs[0].(*ast.CallExpr)
+			}
+		}
+		if call == nil {
+			fail("statement %s in a counted loop", c.show(b))
+		}
+		if !c.matches(c.spec.Ignore, call) {
+			entries = append(entries, c.traceEntry(call))
+		}
+	}
+	return c.withEx(c.expr(x.X), func(code string) string {
+		return fmt.Sprintf("let tr := tr ++ (List.replicate (Int.toNat %s) [%s]).flatten\n", code, strings.Join(entries, ", ")) + c.stmts(rest)
+	})
+}
+
 // loopCtx is the innermost enclosing range loop: its carried variables.
 type loopCtx struct {
 	state []string
@@ -2207,6 +2263,9 @@ func (c *fctx) stmts(list []ast.Stmt) string {
 		}
 		return c.stmts(rest)
 	case *ast.RangeStmt:
+		if x.Key == nil && x.Value == nil && isInt(c.typeOf(x.X)) && c.trace && c.loop == nil {
+			return c.countedLoop(x, rest)
+		}
 		if !c.trace || !c.t.isAbstract(c.typeOf(x.X)) {
 			return c.rangeLoop(x, rest)
 		}
@@ -2297,7 +2356,7 @@ func (c *fctx) stmts(list []ast.Stmt) string {
 		if c.matches(c.spec.Ignore, call) {
 			return c.stmts(rest)
 		}
-		if id, ok := call.Fun.(*ast.Ident); ok && id.Name == "panic" {
+		if id, ok := call.Fun.(*ast.Ident); ok && id.Name == "panic" && c.loop == nil {
 			if _, isB := c.p.info.Uses[id].(*types.Builtin); isB {
 				c.partial = true
 				return "none"
@@ -2916,7 +2975,11 @@ func (t *translator) translate(sp TrFunc) (fo *funcOut) {
 		if lt == "" {
 			fail("receiver type %s", sig.Recv().Type())
 		}
-		params = append(params, fmt.Sprintf("(%s : %s)", leanIdent(c.recv), lt))
+		if c.recv == "" {
+			params = append(params, fmt.Sprintf("(_ : %s)", lt)) // unnamed receiver
+		} else {
+			params = append(params, fmt.Sprintf("(%s : %s)", leanIdent(c.recv), lt))
+		}
 		// is a field of the receiver assigned anywhere?
 		ast.Inspect(fd.Body, func(n ast.Node) bool {
 			var targets []ast.Expr
